@@ -8,8 +8,27 @@
   reference semantics.
 -/
 import GV.Eval.RefStmtThm
+import GV.Eval.Cites
 namespace GV.Props.C20
 open GV.Eval
+
+/-- **General.** Whenever the error of a failed rule cites a line, it is the line of a construct
+    of that rule — for every program, environment and primitives … -/
+theorem C20_cited_line_is_a_construct (P : Params) (env : Env) (body : RBlock) (c : Nat)
+    (h : (denoteRule P env body).cite = some c) : c ∈ body.lines := denoteRule_cites P env body c h
+
+/-- … also for the interpreter run on the AST the listener builds -/
+theorem C20_interpreter_cites (P : Params) (env : Env) (body : RBlock) (hw : body.WF = true) (c : Nat)
+    (h : (ruleExecute P env (lowerB body)).cite = some c) : c ∈ body.lines := ruleExecute_cites P env body hw c h
+
+/-- an error raised inside an expression cites a line of that expression -/
+theorem C20_expression_cites (P : Params) (e : RE) (env : Env) (x : Bool) (c : Nat) (e' : Env)
+    (h : denote P env x e = (.err (some c), e')) : c ∈ e.lines := denote_cites P e env x c e' h
+
+/-- an assignment's own errors cite the assignment's line -/
+theorem C20_assignment_cites (P : Params) (line : Nat) (var : String) (mapv : Option MapV) (aop : AsOp)
+    (rhs : Res Val × Env) (c : Nat) (e' : Env) (h : assignCore P line var mapv aop rhs = (.err (some c), e')) :
+    c = line ∨ ∃ e2, rhs = (.err (some c), e2) := assignCore_cite P line var mapv aop rhs c e' h
 
 /-- every node of the lowered AST carries the line of the construct it was built from -/
 def Expr.line : Expr → Nat | .mk p _ _ _ _ _ _ _ => p.line
@@ -71,7 +90,7 @@ theorem C20_assign_rhs_panic (P : Params) (hr : P.assignRecover = true) (line : 
 theorem C20_assign_store_error (P : Params) (line : Nat) (var : String) (hv : var ≠ "") (v : Val) (e : Env)
     (c : Option Nat) (h : setValue e var v = .err c) :
     assignCore P line var none .set (.ok v, e) = (.err (some line), e) := by
-  simp [assignCore, hv, h]
+  simp [assignCore, assignNew, assignStore, hv, h]
 
 /-- an error raised inside the right-hand side keeps the line it cited (the innermost failing
     construct), the assignment does not overwrite it -/
